@@ -447,6 +447,11 @@ func (w *streamingResponseWriter) WriteHeader(status int) {
 	if w.wroteHeader {
 		return
 	}
+	if status >= 100 && status <= 199 {
+		// Informational (1xx) responses precede the final response and cannot be
+		// relayed through the proxy; the response starts with the final status.
+		return
+	}
 	w.wroteHeader = true
 
 	// Initialize the response trailers.
